@@ -3,7 +3,6 @@
 
 import types
 import inspect
-import itertools
 import hashlib
 import linecache
 
@@ -135,7 +134,15 @@ def build_chain_str(funcs, params, inner_name, params_sofar=None, level=0,
     inner_args = get_fb(funcs[0]).get_arg_names()
     # positional-only parameters can only be passed by position
     posonly_args = _get_posonly_names(funcs[0])
-    pos_args = list(itertools.takewhile(params_sofar.__contains__, posonly_args))
+    posonly_avail = [a in params_sofar for a in posonly_args]
+    pos_args = []
+    if any(posonly_avail):
+        # pass every positional-only parameter up to the last available
+        # one; a defaulted one that is not available in between can't
+        # be skipped in a call, so it is passed its own default
+        last_avail = len(posonly_avail) - posonly_avail[::-1].index(True)
+        pos_args = [a if avail else '_posonly_defaults[%s][%r]' % (level, a)
+                    for a, avail in list(zip(posonly_args, posonly_avail))[:last_avail]]
     inner_arg_dict = dict([(a, a) for a in inner_args if a not in posonly_args])
     inner_arg_items = sorted(inner_arg_dict.items())
     inner_args = ', '.join(pos_args + ['%s=%s' % kv for kv in inner_arg_items
@@ -154,7 +161,9 @@ def build_chain_str(funcs, params, inner_name, params_sofar=None, level=0,
 
 def compile_chain(funcs, params, inner_name, verbose=_VERBOSE):
     call_str = build_chain_str(funcs, params, inner_name)
-    return compile_code(call_str, inner_name, {'funcs': funcs}, verbose=verbose)
+    env = {'funcs': funcs,
+           '_posonly_defaults': [get_fb(f).get_defaults_dict() for f in funcs]}
+    return compile_code(call_str, inner_name, env, verbose=verbose)
 
 
 def compile_code(code_str, name, env=None, verbose=_VERBOSE):
